@@ -4,6 +4,7 @@ import cobs
 import props.c05 as c05
 import props.c10 as c10
 from protocol import Exc
+import probe
 from debian_inspector import copyright as cr
 
 ID = 'C11'
@@ -38,7 +39,7 @@ def observe(op, t):
     g = c05.observe('C05', t)
     try:
         cobs.prelude()
-        p = cobs.paras_obs(cr.DebianCopyright.from_text(t))
+        p = probe.twice(lambda: cr.DebianCopyright.from_text(t), cobs.paras_obs, cobs.scramble)
     except Exception as e:
         p = Exc(type(e).__name__)
     if isinstance(g, Exc):
